@@ -182,6 +182,15 @@ func tryPartial(env Env, nodes []ast.IsNode,
 ) (ast.IsNode, error) {
 	var values []types.Value
 	ok := true
+	// A record or set that still holds a variable can be navigated (attribute access, has)
+	// or embedded in a literal; any other operation would use the placeholder instead of the
+	// value it stands for, and a residual must not carry the placeholder either (a later
+	// substitution of the variable would not reach it): such an operand is left as it was.
+	navigates := false
+	switch mkNode(nodes).(type) {
+	case ast.NodeTypeAccess, ast.NodeTypeHas, ast.NodeTypeSet, ast.NodeTypeRecord:
+		navigates = true
+	}
 	for i, n := range nodes {
 		n, err := partial(env, n)
 		if errors.Is(err, errVariable) {
@@ -189,6 +198,10 @@ func tryPartial(env Env, nodes []ast.IsNode,
 			continue
 		} else if err != nil {
 			return nil, err
+		}
+		if v, vok := n.(ast.NodeValue); vok && !navigates && holdsVariable(v.Value) {
+			ok = false
+			continue
 		}
 		nodes[i] = n
 		if !ok {
@@ -201,16 +214,6 @@ func tryPartial(env Env, nodes []ast.IsNode,
 		ok = false
 	}
 	if ok {
-		// A record or set that still holds a variable can be navigated (attribute access, has)
-		// or embedded in a literal, but comparing, searching or measuring it would use the
-		// placeholder instead of the value it stands for.
-		if slices.ContainsFunc(values, holdsVariable) {
-			switch mkNode(nodes).(type) {
-			case ast.NodeTypeAccess, ast.NodeTypeHas, ast.NodeTypeSet, ast.NodeTypeRecord:
-			default:
-				return mkNode(nodes), errVariable
-			}
-		}
 		eval := mkEval(values)
 		v, err := eval.Eval(env)
 		if err != nil {
